@@ -45,6 +45,61 @@ def composite_invariant(u, s, cs):
     return None
 
 
+def stale_child_merge(claripy, drv, stats):
+    """merge of a composite that holds a redundant child (the merged solver of an earlier query) besides the children the
+    variables are registered for: every order in which the shared children can be visited must give the same, right answer
+    (the order is that of a set of object ids, i.e. arbitrary).  -> failure dict or None"""
+    import itertools
+    import solverhist
+    from claripy.frontend.composite_frontend import CompositeFrontend
+    c = claripy
+    u = solverhist.Universe(c, drv, tag="c12sc_")
+    x, y, z, b = u.x, u.y, u.z, u.b
+
+    def quiet(f):
+        try:
+            return f()
+        except c.errors.ClaripyError:
+            return None
+
+    orig = CompositeFrontend._shared_solvers
+    conds = [b == c.ULT(x, y), c.UGT(y, 14), (x & y) != 0]
+    for last, expect_cs in ((x == 5, "unsat"), (x == 7, "sat")):
+        cs = [c.And(c.UGE(x, 7), c.ULE(x, 7)), y // c.ZeroExt(1, z) == 8, last]
+        for perm in itertools.permutations(range(3)):
+            s = c.SolverComposite()
+            quiet(lambda: s.max(x * y))
+            s.add(cs[0])
+            s.add(cs[1])
+            quiet(lambda: s.max(c.If(b, x, y), signed=True))
+            quiet(lambda: s.max(x * y, extra_constraints=[c.ZeroExt(1, z) == x]))
+            s.add(cs[2])
+            quiet(lambda: s.solution(x * 2, 8))
+            quiet(lambda: s.batch_eval([x * y], 5, extra_constraints=[c.ULT(x, 11)]))
+            s.split()
+            quiet(lambda: s.min(x ^ y, extra_constraints=[c.SDiv(x, y) == 15]))
+
+            def ordered(self, others, perm=perm):
+                l = sorted(orig(self, others), key=lambda k: (len(k.variables), str(sorted(k.variables))))
+                return [l[i] for i in perm] if len(l) == 3 else l
+            CompositeFrontend._shared_solvers = ordered
+            try:
+                _, m = s.merge([s, s], conds)
+            finally:
+                CompositeFrontend._shared_solvers = orig
+            stats["stale_child_merges"] += 1
+            want = bool(u.models([c.Or(*[c.And(cd, *cs) for cd in conds])]))
+            got = m.satisfiable()
+            if got != want:
+                return {"what": "merge of a composite holding a redundant child: satisfiable() is %s, enumeration says %s" % (got, want),
+                        "constraints": [str(k) for k in cs], "merge_conditions": [str(k) for k in conds],
+                        "order_of_shared_children": list(perm), "children_before_merge": len(s._solver_list),
+                        "history": ["max(x*y)", "add(%s)" % cs[0], "add(%s)" % cs[1], "max(If(b,x,y), signed)", "max(x*y, extra=[0#1..z == x])",
+                                    "add(%s)" % cs[2], "solution(x*2, 8)", "batch_eval([x*y], 5, extra=[x < 11])", "split()",
+                                    "min(x^y, extra=[x /s y == 15])", "merge([s, s], conditions)"]}
+    return None
+
+
 def main(tier, seed, replay=None):
     sys.path.insert(0, REPO)
     import claripy
@@ -56,7 +111,7 @@ def main(tier, seed, replay=None):
         print("replay file records:", json.dumps(r, default=str)[:1500])
         return 1
     regen_all()
-    ok_make, log = coq_make(["Proofs/CompositeSound.vo"])
+    ok_make, log = coq_make(["Proofs/CompositeSound.vo", "Proofs/SplitComposite.vo"])
     pr = check_props(PROP) if ok_make else {"ok": False, "obligations": [
         {"name": "C12_*", "closed": False, "axioms": ["<does not compile>"], "ok": False}], "log": log[-3000:]}
     rep.obligations(pr, "make Proofs/CompositeSound.vo && coqc -R coq CV coq/Props/C12.v (Print Assumptions)")
@@ -74,6 +129,8 @@ def main(tier, seed, replay=None):
         fail = solverhist.run_histories(claripy, drv, rng, facs, n, 18, report=rep, tag="c12", ops=ops, max_solvers=5,
                                         invariant=composite_invariant)
         stats["histories"] += n
+        if not fail:
+            fail = stale_child_merge(claripy, drv, stats)
         if not fail:
             n2 = 40 if tier == "quick" else 1500
             fail = solverhist.cache_scenarios(claripy, drv, rng, facs, n2, report=rep, tag="c12cs")
